@@ -279,6 +279,22 @@ func (tb *Table) Eq(a, b *T) *T {
 	if a.IsConst() && (b.Kind == KZExt) {
 		return tb.Eq(b, a)
 	}
+	// eq(sext(x), const): const must be the sign extension of its low bits
+	if b.IsConst() && (a.Kind == KSExt) {
+		x := a.Args[0]
+		low := b.Val & mask(x.W)
+		ext := low
+		if low>>(uint(x.W)-1)&1 == 1 {
+			ext = low | (mask(a.W) &^ mask(x.W))
+		}
+		if ext != b.Val {
+			return tb.False
+		}
+		return tb.Eq(x, tb.Const(x.W, low))
+	}
+	if a.IsConst() && (b.Kind == KSExt) {
+		return tb.Eq(b, a)
+	}
 	if a.ID > b.ID {
 		a, b = b, a
 	}
@@ -961,6 +977,12 @@ func fpSort(w int) (int, int) {
 // Printer renders terms to SMT-LIB2, introducing define-fun for shared or large nodes.
 type Printer struct {
 	Defined  map[int]bool // term id -> has define-fun tN
+	// macro nesting depth of each defined term: z3 4.8.12 expands nested zero-arity define-funs
+	// at cubic cost in the nesting depth (a 256-deep ite chain costs 5 s to parse), so a term
+	// deeper than CutDepth is introduced as a declared constant with a defining equation instead
+	depth    map[int]int
+	CutDepth int
+	Cuts     int
 	Declared map[string]bool
 	Out      *strings.Builder
 	// scoped bookkeeping: what was defined/declared at each solver level
@@ -969,7 +991,7 @@ type Printer struct {
 }
 
 func NewPrinter() *Printer {
-	return &Printer{Defined: map[int]bool{}, Declared: map[string]bool{}, Out: &strings.Builder{},
+	return &Printer{Defined: map[int]bool{}, depth: map[int]int{}, CutDepth: 16, Declared: map[string]bool{}, Out: &strings.Builder{},
 		defStack: [][]int{nil}, declStack: [][]string{nil}}
 }
 
@@ -985,6 +1007,7 @@ func (p *Printer) PopLevels(n int) {
 		top := len(p.defStack) - 1
 		for _, id := range p.defStack[top] {
 			delete(p.Defined, id)
+			delete(p.depth, id)
 		}
 		for _, nm := range p.declStack[top] {
 			delete(p.Declared, nm)
@@ -1020,9 +1043,14 @@ func (p *Printer) Ref(t *T) string {
 		return fmt.Sprintf("t%d", t.ID)
 	}
 	args := make([]string, len(t.Args))
+	d := 0
 	for i, a := range t.Args {
 		args[i] = p.Ref(a)
+		if da := p.depth[a.ID]; da > d {
+			d = da
+		}
 	}
+	d++
 	var s string
 	switch t.Kind {
 	case KExtract:
@@ -1043,7 +1071,16 @@ func (p *Printer) Ref(t *T) string {
 	// every compound node gets a name: keeps output linear in DAG size
 	p.Defined[t.ID] = true
 	p.defStack[len(p.defStack)-1] = append(p.defStack[len(p.defStack)-1], t.ID)
-	fmt.Fprintf(p.Out, "(define-fun t%d () %s %s)\n", t.ID, sortStr(t.W), s)
+	if p.CutDepth > 0 && d > p.CutDepth {
+		p.Cuts++
+		fmt.Fprintf(p.Out, "(declare-const t%d %s)\n(assert (= t%d %s))\n", t.ID, sortStr(t.W), t.ID, s)
+		d = 0
+	} else {
+		fmt.Fprintf(p.Out, "(define-fun t%d () %s %s)\n", t.ID, sortStr(t.W), s)
+	}
+	if d > 0 {
+		p.depth[t.ID] = d
+	}
 	return fmt.Sprintf("t%d", t.ID)
 }
 
